@@ -166,3 +166,16 @@ def r18_6(ctx):
     f = P.own_method("DirectMethod", "main_untranscribe")
     ws = sorted({w.attr for w in writes_in(f.node)})
     ctx.check(ws == ["opti"], "DirectMethod.main_untranscribe drops only the Opti instance", detail="main method un-transcription", expected="self.opti = None", found=ws, fi=f)
+
+
+@rule("R18.7", min_instances=8, desc="what is pickled is complete and fresh: guesses given after transcription are recorded in the declaration (shared with C10); each save/load uses its own serializer")
+def r18_7(ctx):
+    from .c10 import r10_5
+    r10_5(ctx)
+    P = ctx.prog
+    for name, cls in (("rockit_pickle_context", "StringSerializer"), ("rockit_unpickle_context", "StringSerializer")):
+        f = P.function("casadi_helpers", name)
+        ctx.check(not f.params and not f.node.args.defaults and not f.node.args.kw_defaults, "%s takes no (default) arguments" % name, detail="serializer state shared between saves (a second save in the same process writes an unreadable file)",
+                  expected="no parameters; a fresh serializer per call", found="parameters: %s" % f.params, fi=f)
+        made = [st for st in f.node.body if isinstance(st, ast.Assign) and isinstance(st.value, ast.Call) and ast.unparse(st.value.func).endswith(cls) and not st.value.args]
+        ctx.check(len(made) == 1, "%s creates its serializer on every call" % name, detail="serializer reuse", expected="string_serializer = cs.StringSerializer() in the body", found=str(len(made)), fi=f)
